@@ -1,7 +1,10 @@
 #!/bin/sh
 # dev helper: tools_seed.sh <diff> <ID> [<ID>...]  : apply a seeded change to /repo, run the quick checks, undo it
 d="$1"; shift
+trap 'git -C /repo checkout -- . ' EXIT INT TERM PIPE HUP
 git -C /repo apply "$d" || { echo "cannot apply $d"; exit 3; }
-for id in "$@"; do (cd /verif && ./check "$id" --tier quick 2>&1 | tail -6); echo "exit=$?"; done
-git -C /repo checkout -- . 
-git -C /repo status --short | grep -v '^??' | head -3
+out=$(mktemp)
+for id in "$@"; do (cd /verif && ./check "$id" --tier quick > "$out" 2>&1; echo "exit=$?" >> "$out"); grep -E "VIOLATION|ANALYSIS-ERROR|KNOWN|exit=|^C[0-9]" "$out" | cut -c1-300 | head -8; grep -m2 "^  flodym" "$out" | cut -c1-400; done
+rm -f "$out"
+git -C /repo checkout -- .
+trap - EXIT
